@@ -404,6 +404,7 @@ def run(tier):
     rule_R6(res, prog)
     rule_R7(res, prog)
     rule_R8(res, prog)
+    rule_R9(res, prog)
     rule_R1e(res, prog)
     return res.finish()
 
@@ -744,4 +745,37 @@ def rule_R8(res, prog):
                              "`now - startTime` with the session lifetime, so a path that refreshes it (e.g. on every successful resumption) "
                              "lets a session be resumed indefinitely" % (fn.relfile, ln, fn.name, w), file=fn.relfile, line=ln)
             res.instance(rid, "%s:%s startTime written (%s)" % (fn.name, ln, w), ok, finding=f_)
+    res.floor(rid, 1)
+
+
+def rule_R9(res, prog):
+    """RFC 7627 5.3 for RFC 5077 tickets: whether the original session used the extended master secret is sealed in the
+    ticket; matrixUnlockSessionTicket hands that bit on to the hello processing by storing it in
+    ssl->extFlags.require_extended_master_secret, where the ClientHello's extension is then compared with it.  The store
+    from the decrypted ticket must exist on every success path - testing the byte only against the configured policy
+    lets a session sealed with EMS be resumed by a ClientHello without the extension."""
+    from sa import cfgutil as cu
+    rid = "C14.R9"
+    res.rule(rid, "ticket resumption: the EMS bit sealed in the ticket is handed on to the hello processing on every success path")
+    fn = prog.fn("matrixUnlockSessionTicket")
+
+    def hands_on(x):
+        for m in walk(x):
+            if m.get("k") == "bin" and m["op"] == "=" and (strip(m["l"]) or {}).get("f") == "require_extended_master_secret":
+                r = strip(m["r"])
+                while r is not None and r.get("k") == "cast":
+                    r = strip(r["e"])
+                if r is not None and r.get("k") == "un" and r["op"] == "*" and (strip(r["e"]) or {}).get("sc") == "l":
+                    return True
+        return False
+    esc = cu.escapes(fn, (fn.entry, None), hands_on, is_target=cu.success_ret)
+    f_ = None
+    if esc is not None:
+        f_ = Finding(PROP, rid, fn.name, "the ticket's EMS bit is not handed on",
+                     "%s:%s matrixUnlockSessionTicket(): the success return at line %s is reached (via lines %s) without storing the EMS byte "
+                     "of the decrypted ticket into ssl->extFlags.require_extended_master_secret: the hello processing no longer knows "
+                     "that the original session used the extended master secret, and a ClientHello without the extension resumes it "
+                     "(RFC 7627 5.3 requires a full handshake)" % (fn.relfile, esc[-1][1], esc[-1][1], [p_[1] for p_ in esc[-6:-1]]),
+                     file=fn.relfile, line=esc[-1][1])
+    res.instance(rid, "matrixUnlockSessionTicket: every success path stores the ticket's EMS byte into require_extended_master_secret", esc is None, finding=f_)
     res.floor(rid, 1)
